@@ -12,6 +12,6 @@ for l in open(os.path.join(R, "work/nondet_sites.txt")):
     ok = (callee in wiring) if kind == "keeper-field" else ((f, fn, kind, callee) in allow)
     if not ok:
         found = True
-        print("FAILING-INPUT unreviewed nondeterminism site: kind=%s callee=%s in %s (%s)" % (kind, callee, f, fn))
+        print("UNREVIEWED-SITE (the allow-list theorem no longer checks; the replica experiments decide whether outcomes actually diverge) nondeterminism site: kind=%s callee=%s in %s (%s)" % (kind, callee, f, fn))
 if not found:
     print("no unreviewed site in the regenerated table")
